@@ -8,7 +8,20 @@ MSG_INV = ["InvIff", "InvValue", "InvNestedDup", "Emit"]
 
 MAP_INV = ["InvIff", "InvValue", "InvDup", "Emit"]
 
+def struct_job(fam):
+    return [{"module": "MC_Struct", "spec": "Spec", "invariants": ["InvStruct", "InvInjective", "InvInjectiveX"], "novectors": False,
+             "constants": {"Fam": '"%s"' % fam},
+             "quick": {"constants": {"Lens": "{0, 1, 24}", "BigLens": "{}"}, "timeout": 300},
+             "thorough": {"constants": {"Lens": "{0, 1, 23, 24, 255, 256}", "BigLens": "{65535, 65536}"}, "timeout": 3000},
+             "rule": "(route through the API, body protected header [5 built, 5 decoded incl. non-canonical], signer protected header, "
+                     "AAD length class, payload length class / absent) tuples; each state = one tuple executed as a session; all non-trivial; "
+                     "plus implementation-level injectivity over every structure produced"}]
+
+
 JOBS = {
+    "C03": struct_job("sig"),
+    "C04": struct_job("mac"),
+    "C05": struct_job("enc"),
     "C19": [
         {"module": "MC_Builder", "spec": "Spec", "invariants": ["InvIvPiv", "InvBuiltProtNoOrig", "InvReserved", "InvFrame", "Emit"],
          "quick": {"constants": {"MaxLen": 2}, "timeout": 300},
